@@ -381,9 +381,9 @@ func c19run(w *report.W) {
 
 	// ---- 1a. ordered map states (BFS as in C05, shallower): every observer leaves map and globals untouched
 	mapOps := c05ops([]string{"a", "b", "c"}, []int{1}, []string{"swapAB", "fresh"})
-	depth := 3
+	depth := 4
 	if w.Thorough() {
-		depth = 4
+		depth = 5
 	}
 	seen := map[string]bool{}
 	frontier := [][]c05op{{}}
@@ -583,7 +583,7 @@ func init() {
 	register(&report.Check{
 		ID:      "C19",
 		Workers: 1,
-		Rule: "(1) state invariant by deep snapshot: in every implementation state of the ordered map reachable in <=3/4 operations, for every generated pipeline (<=1/2 deviations), every signed command step and three key sets, " +
+		Rule: "(1) state invariant by deep snapshot: in every implementation state of the ordered map reachable in <=4/5 operations, for every generated pipeline (<=1/2 deviations), every signed command step and three key sets, " +
 			"each observer (Len/Get/Contains/Range/ToMap/Marshal*/Equal/TransformValues; json/yaml Marshal, FullSource, SignedFields, ValuesForFields, Sign, Matrix.IsEmpty, a rejected matrix permutation; Verify; Validate) leaves the " +
 			"observed object's memory unchanged, and NO operation (including Parse, Interpolate, SignSteps) changes any package-level variable of any repository package (table generated by the instrumenter); " +
 			"(2) cooperative scheduler: 2-3 harness threads (full lifecycles on distinct documents with distinct keys; observers of one shared tombstoned map; readers of one shared signed pipeline) interleaved at operation " +
